@@ -1459,23 +1459,30 @@ func outputFrames(f *ssa.Function) []outputFrame {
 			}
 		})
 	}
-	allInstrs(f, func(i ssa.Instruction) {
-		cv, ok := i.(*ssa.Call)
-		if !ok || !cv.Call.IsInvoke() {
-			return
-		}
-		n := cv.Call.Method.Name()
-		if !strings.HasPrefix(n, "GetItem") && !strings.HasPrefix(n, "Query") {
-			return
-		}
-		if refs := cv.Referrers(); refs != nil {
-			for _, r := range *refs {
-				if ex, isE := r.(*ssa.Extract); isE && ex.Index == 0 {
-					addFrom(outputFrame{f, ex}, 0)
+	scan := func(f *ssa.Function) {
+		allInstrs(f, func(i ssa.Instruction) {
+			cv, ok := i.(*ssa.Call)
+			if !ok || !cv.Call.IsInvoke() {
+				return
+			}
+			n := cv.Call.Method.Name()
+			if !strings.HasPrefix(n, "GetItem") && !strings.HasPrefix(n, "Query") {
+				return
+			}
+			if refs := cv.Referrers(); refs != nil {
+				for _, r := range *refs {
+					if ex, isE := r.(*ssa.Extract); isE && ex.Index == 0 {
+						addFrom(outputFrame{f, ex}, 0)
+					}
 				}
 			}
-		}
-	})
+		})
+	}
+	scan(f)
+	// the read delegated to a helper of the package: its output is looked into there
+	for _, h := range readHelpersOf(f) {
+		scan(h)
+	}
 	return out
 }
 
